@@ -1,6 +1,7 @@
 package props
 
 import (
+	"bytes"
 	"fmt"
 	"sort"
 	"strconv"
@@ -61,7 +62,7 @@ func evalC17Binary(c c17Binary) (fl *Failure) {
 	}
 	got := g.MatchString(string(c.Key))
 	glob.MustCompile(string(c.Pattern)).MatchString(string(c.Key))
-	if utf8.Valid(c.Pattern) && utf8.Valid(c.Key) {
+	if utf8.Valid(c.Pattern) && utf8.Valid(c.Key) && !bytes.ContainsAny(c.Pattern, "\\[]") {
 		if want := model.GlobMatch(string(c.Pattern), string(c.Key)); got != want {
 			return failf("c17|match", "glob %q on key %q: MatchString = %v, glob semantics say %v", []byte(c.Pattern), []byte(c.Key), got, want)
 		}
@@ -299,6 +300,9 @@ enum:
 				return []byte("\xe6\x97")[:rapid.IntRange(1, 2).Draw(rt, label+"cut")] // a multi-byte character cut short
 			case 2:
 				return []byte{byte(rapid.IntRange(0, 0x1f).Draw(rt, label+"ctl"))}
+			case 3:
+				// characters with a meaning in regular expressions beyond the enumerated alphabet: escapes and classes
+				return []byte(rapid.SampledFrom([]string{"\\", "\\E", "\\Q", "\\d", "\\b", "\\1", "\\x41", "[", "]", "[a-", "(?i)", "(?", "{2}", "\\"}).Draw(rt, label+"re"))
 			default:
 				return []byte(rapid.SampledFrom(extra).Draw(rt, label))
 			}
@@ -386,6 +390,15 @@ enum:
 			}
 		}
 		h.Col.Exhaustive("server level: patterns up to length 3 over {a,é,*,?} x a store holding all 20 keys up to length 2 over the same alphabet", complete)
+	}
+
+	// very long patterns: KEYS and SCAN MATCH still agree
+	if h.Shard == 0 {
+		for _, n := range []int{65536, 65537, 70000, 200000} {
+			c := c17Server{Pattern: strings.Repeat("a", n) + "*", Keys: []string{strings.Repeat("a", n) + "b", "ab", strings.Repeat("a", n)}}
+			h.Col.Case(true, []byte(fmt.Sprint("longpattern", n)), "server-long-pattern")
+			h.Report("c17.server", c, evalC17Server(c))
+		}
 	}
 
 	// large key spaces (an implementation may take another path there)
